@@ -17,6 +17,7 @@ import (
 	"encoding/hex"
 	"errors"
 	"fmt"
+	"io"
 	"runtime"
 	"runtime/debug"
 	"strings"
@@ -48,6 +49,8 @@ func errClass(err error) int {
 		return 2
 	case errors.Is(err, protocol.ErrInvalidFrame):
 		return 1
+	case errors.Is(err, io.EOF), errors.Is(err, io.ErrUnexpectedEOF):
+		return 4
 	}
 	return 3
 }
@@ -374,6 +377,49 @@ func (rn *runner) boundaryWitnesses() {
 		rn.runDec(hd, b, true, true, "fixed:header-length")
 		rn.runDec(hd, b[:13], true, true, "fixed:header-short")
 	}
+	// FrameReader.Read: a bare header must never make the reader allocate the announced length
+	frd := rn.kinds["FrameRead"]
+	for _, l := range []uint32{0, 1, 16384, 16385, 1 << 20, 1 << 28} {
+		b := []byte{4, 2, byte(l >> 24), byte(l >> 16), byte(l >> 8), byte(l), 1, 2, 3, 4, 5, 6, 7, 8}
+		rn.runDec(frd, b, true, true, "fixed:frame-read-bare-header")
+		if l <= 1<<20 {
+			rn.runDec(frd, append(append([]byte{}, b...), 9, 9, 9), true, true, "fixed:frame-read-short-payload")
+		}
+	}
+	for _, n := range []int{protocol.MaxPayloadSize, protocol.MaxPayloadSize + 1} {
+		f := &protocol.Frame{Type: 4, StreamID: 7, Payload: fill(0x11, protocol.MaxPayloadSize)}
+		b, _ := f.Encode()
+		if n > protocol.MaxPayloadSize { // patch the length field: one byte more than allowed, payload present
+			b = append(b, 0x11)
+			b[2], b[3], b[4], b[5] = 0, 0, 0x40, 0x01
+		}
+		rn.runDec(frd, b, true, true, "fixed:frame-read-boundary")
+	}
+	// every message that carries an address: domain names of 254 and 255 bytes round-trip
+	for _, n := range []int{254, 255} {
+		dom := append([]byte{byte(n)}, fill('d', n)...)
+		for _, kn := range []string{"StreamOpen", "UDPOpen"} {
+			k := rn.kinds[kn]
+			m := openMsg{ReqID: 1, AType: protocol.AddrTypeDomain, Addr: dom, Port: 443, TTL: 3, Key: key32(7)}
+			if b := rn.runEnc(k, m, true, true, replay{Mode: "fixed:domain-255"}); b != nil {
+				rn.runDec(k, b, true, true, "fixed:domain-255")
+			}
+		}
+		k := rn.kinds["UDPDatagram"]
+		m := &protocol.UDPDatagram{AddressType: protocol.AddrTypeDomain, Address: dom, Port: 53, Data: []byte{1, 2}}
+		if b := rn.runEnc(k, m, true, true, replay{Mode: "fixed:domain-255"}); b != nil {
+			rn.runDec(k, b, true, true, "fixed:domain-255")
+		}
+		// route prefixes with one-byte lengths at their limit
+		ra := rn.kinds["RouteAdvertise"]
+		adv := &protocol.RouteAdvertise{Sequence: 1, Routes: []protocol.Route{
+			{AddressFamily: protocol.AddrFamilyDomain, Prefix: protocol.EncodeDomainPrefix(string(fill('p', n))), Metric: 1},
+			{AddressFamily: protocol.AddrFamilyForward, Prefix: protocol.EncodeForwardKeyWithTarget(string(fill('k', n)), string(fill('t', n))), Metric: 2},
+			{AddressFamily: protocol.AddrFamilyIPv4, PrefixLength: 8, Prefix: []byte{10, 0, 0, 0}, Metric: 3}}}
+		if b := rn.runEnc(ra, adv, true, true, replay{Mode: "fixed:prefix-255"}); b != nil {
+			rn.runDec(ra, b, true, true, "fixed:prefix-255")
+		}
+	}
 	cr := rn.kinds["ControlResponse"]
 	for _, n := range []int{protocol.MaxPayloadSize - 13, protocol.MaxPayloadSize - 12, protocol.MaxPayloadSize - 11} {
 		m := &protocol.ControlResponse{RequestID: 9, ControlType: 2, Success: true, Data: fill(0x33, n)}
@@ -398,7 +444,7 @@ func (rn *runner) boundaryWitnesses() {
 		for _, n := range []int{255, 256} {
 			ids := make([]identity.AgentID, n)
 			for i := range ids {
-				ids[i][0] = byte(i)
+				ids[i][0] = byte(i / 100)
 			}
 			var m any
 			switch name {
@@ -409,13 +455,13 @@ func (rn *runner) boundaryWitnesses() {
 			case "RouteWithdraw":
 				rs := make([]protocol.Route, n)
 				for i := range rs {
-					rs[i] = protocol.Route{AddressFamily: protocol.AddrFamilyIPv4, PrefixLength: 32, Prefix: []byte{10, 0, byte(i >> 8), byte(i)}, Metric: uint16(i)}
+					rs[i] = protocol.Route{AddressFamily: protocol.AddrFamilyIPv4, PrefixLength: 32, Prefix: []byte{10, 0, 0, byte(i / 100)}, Metric: uint16(i / 100)}
 				}
 				m = &protocol.RouteWithdraw{Sequence: 3, Routes: rs, SeenBy: ids[:1]}
 			case "RouteAdvertise":
 				rs := make([]protocol.Route, n)
 				for i := range rs {
-					rs[i] = protocol.Route{AddressFamily: protocol.AddrFamilyIPv4, PrefixLength: 32, Prefix: []byte{10, 0, byte(i >> 8), byte(i)}, Metric: uint16(i)}
+					rs[i] = protocol.Route{AddressFamily: protocol.AddrFamilyIPv4, PrefixLength: 32, Prefix: []byte{10, 0, 0, byte(i / 100)}, Metric: uint16(i / 100)}
 				}
 				m = &protocol.RouteAdvertise{Sequence: 3, Routes: rs, Path: ids[:1], SeenBy: ids[:1]}
 			}
@@ -597,7 +643,7 @@ func main() {
 func (rn *runner) writeCases() {
 	var sb strings.Builder
 	sb.WriteString("From Coq Require Import List NArith String.\nFrom MM Require Import Lib.Bytes Model.Frames.\nImport ListNotations.\n")
-	sb.WriteString("Local Open Scope N_scope.\nLocal Open Scope string_scope.\nNotation h := bytes_of_hex.\nInductive seg := S_ (s : string) | R_ (n : N) (s : string).\nDefinition hx (l : list seg) : bytes := List.concat (List.map (fun g => match g with S_ s => bytes_of_hex s | R_ n s => N.iter n (fun a => List.app (bytes_of_hex s) a) nil end) l).\nFixpoint chunk16 (fuel : nat) (b : bytes) : list bytes := match fuel with O => nil | S f => match b with nil => nil | _ => List.firstn 16 b :: chunk16 f (List.skipn 16 b) end end.\nDefinition ids (b : bytes) : list bytes := chunk16 (List.length b) b.\n")
+	sb.WriteString("Local Open Scope N_scope.\nLocal Open Scope string_scope.\nNotation h := bytes_of_hex.\nInductive seg := S_ (s : string) | R_ (n : N) (s : string).\nDefinition hx (l : list seg) : bytes := List.concat (List.map (fun g => match g with S_ s => bytes_of_hex s | R_ n s => N.iter n (fun a => List.app (bytes_of_hex s) a) nil end) l).\nFixpoint chunk16 (fuel : nat) (b : bytes) : list bytes := match fuel with O => nil | S f => match b with nil => nil | _ => List.firstn 16 b :: chunk16 f (List.skipn 16 b) end end.\nDefinition ids (b : bytes) : list bytes := chunk16 (List.length b) b.\nDefinition rl {A : Type} (l : list (nat * A)) : list A := List.concat (List.map (fun p => List.repeat (snd p) (fst p)) l).\n")
 	const chunk = 50
 	var names []string
 	for i := 0; i < len(rn.coq); i += chunk {
